@@ -153,10 +153,11 @@ def gen_case(rng, depth):
     return tree, beam, ex
 
 
-def align_merged(orig, new, ex):
+def align_merged(orig, new, ex, changers=()):
     """Every element of the merged list is either the identical next original element, or a CustomTransferMap named
     "combined_"+"_".join(names of the next k originals), all of which are skippable and not excepted.  Returns None or
-    a description of what is wrong."""
+    a description of what is wrong.  `changers`: ids of the elements whose own track() changes the beam energy in some
+    batch entry -- merging never merges across one of them, whatever is_skippable says."""
     import cheetah
     i = 0
     for o in new:
@@ -175,6 +176,8 @@ def align_merged(orig, new, ex):
                 return f"merged element {o.name!r} spans the non-skippable element {e.name!r}"
             if e.name in ex:
                 return f"merged element {o.name!r} spans the excepted element {e.name!r}"
+            if id(e) in changers:
+                return f"merged element {o.name!r} spans the energy-changing element {e.name!r} ({type(e).__name__})"
         i += k
     if i != len(orig):
         return f"{len(orig) - i} trailing original elements are missing from the merged segment"
@@ -369,8 +372,43 @@ def gen_real_case(rng, n_max=6):
     return lat, beam, ex
 
 
+def energy_changers(seg, b):
+    """ids of the top-level elements whose own track() changes the beam energy in ANY batch entry (element-wise fold of
+    element.track along the lattice: decided by the tracking itself, not by is_active / is_skippable).  Only the energies
+    of this fold are used (its coordinates differ from Segment.track at a switched-off cavity: finding F1)."""
+    out = set()
+    cur = b
+    for e in seg.elements:
+        try:
+            nxt = e.track(cur)
+            e0, e1 = torch.broadcast_tensors(torch.as_tensor(cur.energy), torch.as_tensor(nxt.energy))
+            if bool(torch.any((e0 - e1).abs() > 1e-9 * e0.abs())):      # beyond the round-off of a p0c <-> energy round trip
+                out.add(id(e))
+            cur = nxt
+        except Exception:
+            break          # an element that raises alone: nothing is claimed about the rest
+    return out
+
+
+def batch_shape_lost(out, ref):
+    """names of the outgoing tensors whose shape differs from the reference's other than by dropping leading batch
+    dimensions along which the values are equal anyway (checked entry-wise by beams_close through broadcasting)"""
+    import cheetah
+    names = ["particles", "energy"] if isinstance(ref, cheetah.ParticleBeam) else ["_mu", "_cov", "energy"]
+    bad = []
+    for n in names:
+        so, sr = tuple(getattr(out, n).shape), tuple(getattr(ref, n).shape)
+        try:
+            if tuple(torch.broadcast_shapes(so, sr)) != sr:
+                bad.append((n, list(so), list(sr)))
+        except RuntimeError:
+            bad.append((n, list(so), list(sr)))
+    return bad
+
+
 def real_check(lat, beam, ex, ops=OPS):
-    """Returns (status, failures): status 'ok' | 'skipped:<why>'; failures = list of dicts (op, what, ...)."""
+    """Returns (status, failures): status 'ok' | 'skipped:<why>'; failures = list of dicts (op, what, ...).
+    Works for scalar and vectorised settings (entry-wise comparisons through broadcasting)."""
     import cheetah
     try:
         seg = realgen.build(lat)
@@ -380,7 +418,8 @@ def real_check(lat, beam, ex, ops=OPS):
         return "skipped:exception:" + type(ex_).__name__, []
     if has_nan(ref):
         return "skipped:reference_nan", []      # garbage in (Bmad-X bend at angle 0 ...: finding F8 of C09): unspecified here
-    L0 = float(torch.as_tensor(seg.length).sum())
+    L0 = torch.as_tensor(seg.length)
+    changers = energy_changers(seg, b)
     fails = []
     for op in ops:
         try:
@@ -392,19 +431,25 @@ def real_check(lat, beam, ex, ops=OPS):
         d = realgen.beams_close(out, ref, rtol=RTOL, atol=ATOL)
         if d:
             fails.append({"op": op, "what": "tracking result differs from the original segment's", "diffs": d})
+        elif type(out) is type(ref):
+            sh = batch_shape_lost(out, ref)
+            if sh:
+                fails.append({"op": op, "what": "outgoing batch shape differs from the original segment's", "shapes": sh})
         try:
-            L1 = float(torch.as_tensor(new.length).sum()) if len(new.elements) else 0.0
-        except TypeError:
-            L1 = float("nan")
-        if not abs(L1 - L0) <= 1e-12 * max(1.0, abs(L0)):
-            fails.append({"op": op, "what": "total length differs", "got": L1, "expected": L0})
+            L1 = torch.as_tensor(new.length) if len(new.elements) else torch.zeros((), dtype=L0.dtype)
+            x, y = torch.broadcast_tensors(L1.to(L0.dtype), L0)
+            len_ok = bool(torch.all((x - y).abs() <= 1e-12 * torch.clamp(y.abs(), min=1.0)))
+        except (TypeError, RuntimeError):
+            L1, len_ok = None, False
+        if not len_ok:
+            fails.append({"op": op, "what": "total length differs", "got": None if L1 is None else L1.tolist(), "expected": L0.tolist()})
         if new.name != seg.name:
             fails.append({"op": op, "what": "segment name not kept"})
         w = excepted_ok(seg, new, ex)
         if w:
             fails.append({"op": op, "what": w})
         if op == "merged":
-            w = align_merged(list(seg.elements), list(new.elements), ex)
+            w = align_merged(list(seg.elements), list(new.elements), ex, changers)
             if w:
                 fails.append({"op": op, "what": w})
         if op == "markers":
@@ -413,6 +458,13 @@ def real_check(lat, beam, ex, ops=OPS):
                     fails.append({"op": op, "what": f"non-marker {e.name!r} removed"})
         if op == "drifts" and [o.name for o in new.elements] != [e.name for e in seg.elements]:
             fails.append({"op": op, "what": "element names changed"})
+        if op in ("zero", "drifts"):
+            # an element that changes the beam energy (in any batch entry) is active: it is neither dropped nor replaced
+            # (nested Segments are replaced wholesale: finding F10, classified through the tracking comparison)
+            for e in seg.elements:
+                if id(e) in changers and not isinstance(e, cheetah.Segment) and not any(o is e for o in new.elements):
+                    fails.append({"op": op, "what": f"energy-changing element {e.name!r} ({type(e).__name__}) was "
+                                  + ("removed" if op == "zero" else "replaced by a " + "/".join(type(o).__name__ for o in new.elements if o.name == e.name))})
     return "ok", fails
 
 
@@ -423,6 +475,17 @@ def _no_is_active(spec):
 
 def _kw(spec, k, default=None):
     return spec.get("kw", {}).get(k, default)
+
+
+def _flat(v):
+    if isinstance(v, (list, tuple)):
+        return [x for u in v for x in _flat(u)]
+    return [v]
+
+
+def _allzero(v):
+    """parameter value (float or nested list = vectorised setting) is zero in every batch entry"""
+    return v is not None and all(x == 0.0 for x in _flat(v))
 
 
 SIGNATURES = [
@@ -438,13 +501,13 @@ SIGNATURES = [
      "inactive_elements_as_drifts replaces a nested Segment (no is_active) by a Drift, active elements inside included [F10]"),
     ("F10", "drifts", lambda s: s["cls"] == "Drift" and _kw(s, "tracking_method") == "bmadx",
      "inactive_elements_as_drifts replaces a Bmad-X Drift by a linear (cheetah) Drift [F10]"),
-    ("F10", "drifts", lambda s: s["cls"] == "Quadrupole" and _kw(s, "k1") == 0.0 and _kw(s, "tracking_method") == "bmadx",
+    ("F10", "drifts", lambda s: s["cls"] == "Quadrupole" and _allzero(_kw(s, "k1")) and _kw(s, "tracking_method") == "bmadx",
      "inactive_elements_as_drifts replaces a Bmad-X Quadrupole(k1=0) by a linear (cheetah) Drift [F10]"),
     ("F10", "drifts", lambda s: s["cls"] == "Undulator" and not _kw(s, "is_active"),
      "inactive_elements_as_drifts replaces an inactive Undulator by a Drift whose R56 differs (Undulator R56 = +L/gamma^2) [F10/F3]"),
-    ("F10", "drifts", lambda s: s["cls"] == "TransverseDeflectingCavity" and _kw(s, "voltage") == 0.0,
+    ("F10", "drifts", lambda s: s["cls"] == "TransverseDeflectingCavity" and _allzero(_kw(s, "voltage")),
      "inactive_elements_as_drifts replaces TransverseDeflectingCavity(voltage=0) (two Bmad-X half drifts) by a linear Drift [F10]"),
-    ("F10", "drifts", lambda s: s["cls"] in ("Dipole", "RBend") and _kw(s, "angle") == 0.0 and _kw(s, "k1") != 0.0,
+    ("F10", "drifts", lambda s: s["cls"] in ("Dipole", "RBend") and _allzero(_kw(s, "angle")) and not _allzero(_kw(s, "k1")),
      "inactive_elements_as_drifts replaces Dipole/RBend(angle=0, k1!=0) by a Drift: is_active looks at the angle only, the gradient is lost [F10]"),
 ]
 
@@ -502,12 +565,18 @@ def classify_real(lat, beam, ex, fails):
     return known, new
 
 
+def _what_key(what):
+    """kind of a failure, without the element names (the name of a merged element changes when elements are dropped)"""
+    import re
+    return re.sub(r"'[^']*'", "", what.split(":")[0])
+
+
 def shrink_real(lat, beam, ex, op, what):
     """drop top-level elements while the same failure persists"""
     def still(l):
         st, f = real_check(l, beam, ex, ops=(op,))
         k, n = classify_real(l, beam, ex, f)
-        return any(x["op"] == op and x["what"].split(":")[0] == what.split(":")[0] for x in n)
+        return any(x["op"] == op and _what_key(x["what"]) == _what_key(what) for x in n)
     changed = True
     while changed:
         changed = False
@@ -536,6 +605,126 @@ def real_oracle(run, n):
         for k in known:
             run.known(k)
             run.count("real_known_finding_hits")
+        for f in new:
+            new_fail.append({"kind": "real_lattice", "lattice": lat, "beam": beam, "except_for": ex, "failure": f})
+    return new_fail
+
+
+# ---------------------------------------------------------------- vectorised settings
+VEC_FILL = ["Drift", "Quadrupole", "Dipole", "RBend", "Solenoid", "HorizontalCorrector", "VerticalCorrector", "Cavity", "Undulator",
+            "Marker", "BPM", "Aperture", "Aperture", "TransverseDeflectingCavity"]
+VEC_CLASSES = ["Cavity", "Cavity", "Cavity", "Quadrupole", "Quadrupole", "Dipole", "RBend", "Solenoid", "HorizontalCorrector",
+               "VerticalCorrector", "Drift"]
+
+
+def _vec(rng, B, pool, mix_zero=True):
+    """B entries from the pool; with mix_zero an exact 0.0 next to a non-zero value most of the time"""
+    v = [rng.choice(pool) for _ in range(B)]
+    if mix_zero and rng.random() < 0.7:
+        nz = [x for x in pool if x != 0.0]
+        v[rng.randrange(B)] = 0.0
+        if all(x == 0.0 for x in v) and nz:
+            i = rng.randrange(B)
+            v[i] = rng.choice(nz)
+            v[(i + 1) % B] = 0.0
+    return v
+
+
+def gen_vec_element(rng, B, cls, name):
+    """A cheetah-method element with one or two parameters vectorised over a batch of B settings (mixing exact zeros with
+    non-zero values): the whole-tensor predicates is_active = any(strength != 0), any(length > 0), all(length == 0) are
+    decided differently by the entries of such a batch."""
+    e = realgen.gen_element(rng, cls=cls, name=name, method="cheetah", length_pool=[0.25, 0.5, 1.0])
+    kw = e["kw"]
+    vec_len = rng.random() < 0.3
+    if cls == "Cavity":
+        # non-accelerating or all-accelerating batches only: a batch mixing accelerating and non-accelerating entries is NaN in
+        # Cavity.track itself (finding F5 of C04) and would only be skipped as an unspecified reference
+        mode = rng.choice(["decel", "decel", "decel_phase", "accel"])
+        if mode == "decel":
+            kw["voltage"], kw["phase"] = _vec(rng, B, [0.0, -1e6, -2e6]), rng.choice([0.0, 30.0, -20.0])
+        elif mode == "decel_phase":
+            kw["voltage"], kw["phase"] = _vec(rng, B, [0.0, 1e6, 2e6]), rng.choice([180.0, 150.0, -160.0])
+        else:
+            kw["voltage"], kw["phase"] = _vec(rng, B, [1e6, 5e6, 2e7], mix_zero=False), rng.choice([0.0, 30.0, -20.0])
+        if vec_len:
+            kw["length"] = _vec(rng, B, [0.25, 0.5, 1.0], mix_zero=False)
+    elif cls == "Quadrupole":
+        if rng.random() < 0.8:
+            kw["k1"] = _vec(rng, B, [0.0, 2.0, -3.0, 0.5])
+        else:
+            vec_len = True
+        if vec_len:
+            kw["length"] = _vec(rng, B, [0.0, 0.25, 0.5])
+    elif cls in ("Dipole", "RBend"):
+        kw["angle"] = _vec(rng, B, [0.0, 0.1, -0.02, 0.3])
+        if rng.random() < 0.3:
+            kw["k1"] = _vec(rng, B, [0.0, 0.5, -1.0])
+        if vec_len:
+            kw["length"] = _vec(rng, B, [0.0, 0.5, 1.0])
+    elif cls == "Solenoid":
+        kw["k"] = _vec(rng, B, [0.0, 0.5, -1.0, 3.0])
+        if vec_len:
+            kw["length"] = _vec(rng, B, [0.0, 0.25, 0.5])
+    elif cls in ("HorizontalCorrector", "VerticalCorrector"):
+        if rng.random() < 0.8:
+            kw["angle"] = _vec(rng, B, [0.0, 1e-3, -2e-3, 0.01])
+        else:
+            vec_len = True
+        if vec_len:
+            kw["length"] = _vec(rng, B, [0.0, 0.1, 0.5])
+    elif cls == "Drift":
+        kw["length"] = _vec(rng, B, [0.0, 0.5, 1.0])
+    return e
+
+
+def gen_vec_case(rng):
+    B = rng.choice([2, 2, 3])
+    n = rng.randrange(3, 8)
+    where = set(rng.sample(range(n), rng.choice([1, 1, 2])))
+    es = []
+    for i in range(n):
+        if i in where:
+            es.append(gen_vec_element(rng, B, rng.choice(VEC_CLASSES), f"el{i}"))
+        else:
+            es.append(realgen.gen_element(rng, name=f"el{i}", allow=VEC_FILL, method="cheetah"))
+    bt = rng.choice(["particle", "parameter"])
+    for i, e in enumerate(es):
+        if e["cls"] == "TransverseDeflectingCavity" and bt == "parameter":      # Bmad-X tracking asserts a ParticleBeam
+            es[i] = e = realgen.gen_element(rng, cls="Drift", name=e["name"], method="cheetah")
+        if e["cls"] == "Cavity" and e["kw"]["phase"] == 90.0:                    # NaN at the zero crossing (finding F90 of C09)
+            e["kw"]["phase"] = 45.0
+    lat = {"cls": "Segment", "name": "vseg", "es": es}
+    energy = rng.choice([2e7, 1e8, 6e9])
+    beam = realgen.gen_particle_beam(rng, energy=energy) if bt == "particle" else realgen.gen_parameter_beam(rng, energy=energy)
+    ex = [c["name"] for c in es if rng.random() < 0.15]
+    if rng.random() < 0.2:
+        ex.append("absent")
+    return lat, beam, ex, B
+
+
+def vec_oracle(run, n):
+    """the property oracle on real lattices with vectorised settings (batch of 2-3 settings on one or two elements), both
+    beam types, all four optimisations"""
+    new_fail = []
+    for _ in range(n):
+        lat, beam, ex, B = gen_vec_case(run.rng)
+        st, fails = real_check(lat, beam, ex)
+        if st != "ok":
+            run.count("vec_" + st)
+            continue
+        run.add_case(["vec", lat, beam["type"], ex], True)
+        run.count("vec_" + beam["type"])
+        run.count("vec_batch_%d" % B)
+        for s in lat["es"]:
+            for k, v in s["kw"].items():
+                if isinstance(v, list) and k in ("voltage", "k1", "k", "angle", "length"):
+                    z = [x == 0.0 for x in v]
+                    run.count("vec_%s_%s_%s" % (s["cls"], k, "mixed_zero_nonzero" if any(z) and not all(z) else "all_zero" if all(z) else "all_nonzero"))
+        known, new = classify_real(lat, beam, ex, fails)
+        for k in known:
+            run.known(k)
+            run.count("vec_known_finding_hits")
         for f in new:
             new_fail.append({"kind": "real_lattice", "lattice": lat, "beam": beam, "except_for": ex, "failure": f})
     return new_fail
@@ -597,7 +786,8 @@ def main(tier, replay=None):
                        "is_active attribute) x both beam types x random except_for lists (subsets of top-level names, absent names, nested names): the "
                        "element lists (identity of kept objects, names, lengths, merged matrices), tracking results and lengths of "
                        "transfer_maps_merged / without_inactive_markers / without_inactive_zero_length_elements / inactive_elements_as_drifts are compared "
-                       "exactly with vm_compute of the Coq model; plus the property oracle on random real lattices. Non-trivial = >=2 top-level elements "
+                       "exactly with vm_compute of the Coq model; plus the property oracle on random real lattices, scalar and with vectorised settings "
+                       "(batch of 2-3 values of voltage / k1 / k / angle / length on one or two elements, zeros mixed with non-zero values). Non-trivial = >=2 top-level elements "
                        "and at least one transformation changed the element list; distinct by full case content." % (5 if thorough else 3))
     if replay:
         return do_replay(run, replay)
@@ -610,12 +800,15 @@ def main(tier, replay=None):
     run.cov["undulator_as_drift"] = ("known finding [F10/F3]: an inactive Undulator is not a drift (R56)" if signature_active(UND_TEXT)
                                      else "an inactive Undulator must track like the Drift that replaces it (finding F3 repaired)")
     new_real = real_oracle(run, 1500 if thorough else 150)
+    new_real += vec_oracle(run, 600 if thorough else 60)
     regressed = replay_known(run)
     # failures already reported through the stored input of a fixed entry are not reported a second time
     new_real = [it for it in new_real if not (it["failure"].get("regression_of") and set(it["failure"]["regression_of"]) <= set(regressed))]
     run.cov["tested_only"] = ["tracking before/after each transformation on real lattices (float64, rtol 1e-9)",
                               "identity of excepted objects and getattr(segment, name) addressability (Python object identity is outside the model)",
-                              "vectorised settings (not generated by this check)"]
+                              "vectorised settings: real lattices with a batch of 2-3 settings on one or two elements (cavity voltages, k1, k, angles, lengths "
+                              "mixing exact zeros with non-zero values), entry-wise comparison, batch shape, no merge / drift replacement of an element "
+                              "that changes the energy in any batch entry (the Coq model is scalar)"]
 
     # ---- verdict
     if impl_fail:
